@@ -1111,6 +1111,108 @@ func c08R3(c *Ctx, r *c08Roles) {
 				}
 			}
 		}
+		if !found {
+			// list shape: the reference is collected into a (0- or 1-element) list exactly when it is non-empty, and
+			// the per-entry helper tags the entry by every element of that list
+			for _, ap := range CallsTo(L, "builtin:append") {
+				elems, _ := c09AppendedElems(ap)
+				if len(elems) != 1 || !it.InBody(ap.(ssa.Instruction)) {
+					continue
+				}
+				ref := elems[0]
+				var lk *ssa.Lookup
+				for _, rt := range Roots(ref) {
+					switch u := rt.(type) {
+					case *ssa.Lookup:
+						lk = u
+					case *ssa.Extract:
+						if x, ok := u.Tuple.(*ssa.Lookup); ok && u.Index == 0 {
+							lk = x
+						}
+					}
+				}
+				if lk == nil || !inObj(c09FieldBase(lk.X, "Annotations")) {
+					continue
+				}
+				if sv, ok := constString(lk.Index); !ok || sv != refName {
+					continue
+				}
+				refVals := Aliases(ref)
+				var nonEmpty []Edge
+				for _, i := range Ifs(L) {
+					cond, t, fe := ifEdges(i)
+					bo, isBo := cond.(*ssa.BinOp)
+					if !isBo || (bo.Op != token.EQL && bo.Op != token.NEQ) || !(refVals[bo.X] || refVals[bo.Y]) {
+						continue
+					}
+					other := bo.Y
+					if !refVals[bo.X] {
+						other = bo.X
+					}
+					if sv, isC := constString(other); isC && sv == "" {
+						if bo.Op == token.NEQ {
+							nonEmpty = append(nonEmpty, t)
+						} else {
+							nonEmpty = append(nonEmpty, fe)
+						}
+					}
+				}
+				collected := len(nonEmpty) > 0 && c09Guarded(ap.(ssa.Instruction), nonEmpty)
+				for _, e := range nonEmpty {
+					if it.ContinuesWithout(e.To, 0, newCut().Instr(ap.(ssa.Instruction))) {
+						collected = false
+					}
+				}
+				// the helper that receives the list and the entry
+				list := Aliases(ap.Value())
+				for _, call := range Calls(L, func(string) bool { return true }) {
+					g := StaticCallee(call)
+					if _, isCall := call.(*ssa.Call); !isCall || g == nil || !it.InBody(call.(ssa.Instruction)) || fnPkgPath(g) != fnPkgPath(L) || len(g.Blocks) == 0 {
+						continue
+					}
+					args := call.Common().Args
+					pl, pd := -1, -1
+					for i, a := range args {
+						for _, rt := range Roots(a) {
+							if list[rt] {
+								pl = i
+							}
+						}
+						if inObj(c09CellOrValue(a)) {
+							pd = i
+						}
+					}
+					if pl < 0 || pd < 0 || pl >= len(g.Params) || pd >= len(g.Params) {
+						continue
+					}
+					gobj := c09DescObjOf(g.Params[pd])
+					for _, git := range c09ItersIn(g) {
+						if git.Loop == nil || git.Coll == nil || !c09SameKey(git.Coll, g.Params[pl]) || git.Val == nil {
+							continue
+						}
+						var tags []ssa.Instruction
+						for _, tc := range c09BodyCalls(git) {
+							if !isTag(CalleeName(tc)) {
+								continue
+							}
+							a := tc.Common().Args
+							if c09SameKey(a[len(a)-1], git.Val) && (gobj.vals[a[len(a)-2]] || gobj.vals[c09CellOrValue(a[len(a)-2])]) {
+								tags = append(tags, tc.(ssa.Instruction))
+								errCalls = append(errCalls, tc)
+							}
+						}
+						b, bi := git.BodyStart()
+						early, _ := c09IterEarlyExit(git)
+						everyElem := len(tags) > 0 && !git.ContinuesWithout(b, bi, newCut().Instr(tags...)) && !early
+						reached := c09NilReturnsPass(g, []ssa.Instruction{git.Loop.Header.Instrs[0]})
+						found = true
+						if !(collected && everyElem && reached) {
+							ok3 = false
+						}
+					}
+				}
+			}
+		}
 		c.Check(R3, ln+"|tagged-by-ref-iff-annotated", lpos, ok3 && found, ifelse(ok3 && found, "an entry is tagged by its ref-name annotation exactly when the annotation is non-empty", "the reference tag is not (re)created exactly for the entries that carry a ref-name annotation: tags differ after reopen"))
 		// errors of the load steps are returned (in the function that makes the call, and by the loader for helper calls)
 		okErr, detail := true, ""
